@@ -438,7 +438,7 @@ def check_name(ctx, rng, name, unit_name, is_alias, tmpdir):
                     bad("basicConfig(file).preferred_units", got)
                 if is_dist:
                     ctx.count("channel_toml_step")
-                    got_ft = pb.trajectory_calc._globalMaxCalcStepSizeFeet  # pylint: disable=protected-access
+                    got_ft = monitors.global_max_step_ft()
                     want_ft = want(step_val) >> Distance.Foot
                     if not abs(got_ft - want_ft) <= 1e-9 * want_ft:
                         bad("basicConfig(file).calculator.max_calc_step_size.units", f"global step {got_ft!r} ft (expected {want_ft!r} ft)")
@@ -526,8 +526,8 @@ def check_unknown(ctx, text, tmpdir):
                 ctx.violation("unknown.slot-not-a-unit", f"{channel} with {text!r} left PreferredUnits.{slot} = {u!r} (not a Unit)", case)
             elif u is not before[slot]:
                 ctx.violation("unknown.selected-another-unit", f"{channel} with {text!r} changed PreferredUnits.{slot} from {before[slot]!r} to {u!r}", case)
-        if pb.trajectory_calc._globalMaxCalcStepSizeFeet != 0.5:  # pylint: disable=protected-access
-            ctx.violation("unknown.step-units", f"{channel} with units {text!r} changed the global step to {pb.trajectory_calc._globalMaxCalcStepSizeFeet!r}", case)
+        if abs(monitors.global_max_step_ft() - 0.5) > 1e-12:
+            ctx.violation("unknown.step-units", f"{channel} with units {text!r} changed the global step to {monitors.global_max_step_ft()!r} ft", case)
         for q_text in (f"10{text}", f"2.5 {text}"):
             squeezed = text.replace(" ", "")
             if not squeezed or squeezed[0].isdigit() or squeezed[0] == "." or squeezed.lower() in KNOWN:
